@@ -8,6 +8,7 @@ import (
 	"strings"
 	"sync"
 
+	"github.com/theQRL/go-qrllib/dilithium"
 	"github.com/theQRL/go-qrllib/qrl"
 	"github.com/theQRL/go-qrllib/xmss"
 )
@@ -210,6 +211,60 @@ func genC15(g *gen) {
 		fmt.Sprintf("a.dil %s", hx(g.bytes(2592))), fmt.Sprintf("a.xmssvalid %s", hx(g.bytes(20))),
 		fmt.Sprintf("js.xvalid %s", hx([]byte("0x0102"+strings.Repeat("00", 18)))),
 	)
+	// Dilithium verification: a genuine signature and the ways a signature is turned away early (after some or all hints
+	// were decoded, at the norm test, at the final comparison) — a verifier that keeps anything from one call to the
+	// next shows when a genuine signature is verified right after one of those
+	dk, _ := dilithium.NewDilithiumFromSeed(func() (a [48]uint8) { copy(a[:], unhex(dseed)); return }())
+	dpk := dk.GetPK()
+	dmsg := g.bytes(11)
+	dsig, _ := dk.Sign(dmsg)
+	// the rejected ones are made from a second genuine signature (other message, hence other hints): what a verifier
+	// might keep from them differs from what the first signature brings along
+	dmsg2 := g.bytes(12)
+	dsig2, _ := dk.Sign(dmsg2)
+	edit := func(f func(b []byte)) string { b := append([]byte{}, dsig2[:]...); f(b); return hx(b) }
+	hs := len(dsig2) - 83 // hint section: 75 position bytes, 8 cumulative counters
+	total := int(dsig2[len(dsig2)-1])
+	goodV := fmt.Sprintf("dl.verify %s %s %s", hx(dmsg), hx(dsig[:]), hx(dpk[:]))
+	goodO := fmt.Sprintf("dl.open %s %s", hx(dsig[:])+hx(dmsg), hx(dpk[:]))
+	badV := []string{
+		fmt.Sprintf("dl.verify %s %s %s", hx(g.bytes(11)), hx(dsig2[:]), hx(dpk[:])),                                          // other message
+		fmt.Sprintf("dl.verify %s %s %s", hx(dmsg2), edit(func(b []byte) { b[3] ^= 0x10 }), hx(dpk[:])),                        // challenge bit
+		fmt.Sprintf("dl.verify %s %s %s", hx(dmsg2), edit(func(b []byte) { b[32], b[33], b[34] = 0, 0, b[34]&0xf0 }), hx(dpk[:])), // z = γ1: norm test, hints already decoded
+		fmt.Sprintf("dl.verify %s %s %s", hx(dmsg2), edit(func(b []byte) { b[32+6*640+637] = 0; b[32+6*640+638] = 0; b[32+6*640+639] = 0 }), hx(dpk[:])),
+		fmt.Sprintf("dl.verify %s %s %s", hx(dmsg2), edit(func(b []byte) { b[len(b)-1] = 76 }), hx(dpk[:])),                     // last counter > ω: seven rows decoded
+		fmt.Sprintf("dl.verify %s %s %s", hx(dmsg2), edit(func(b []byte) { b[len(b)-1] = byte(total - 1); b[len(b)-2] = byte(total) }), hx(dpk[:])), // counters decrease
+		fmt.Sprintf("dl.verify %s %s %s", hx(dmsg2), edit(func(b []byte) {
+			if total < 75 {
+				b[hs+74] = 9 // non-zero padding: every row decoded
+			}
+		}), hx(dpk[:])),
+		fmt.Sprintf("dl.verify %s %s %s", hx(dmsg2), edit(func(b []byte) {
+			if total >= 2 {
+				b[hs+total-1] = b[hs+total-2] // repeated position at the very end of the last non-empty row
+			}
+		}), hx(dpk[:])),
+		fmt.Sprintf("dl.verify %s %s %s", hx(dmsg2), edit(func(b []byte) {
+			if total >= 2 {
+				b[hs], b[hs+1] = b[hs+1], b[hs] // first two positions swapped (unordered inside a row, or moved across rows)
+			}
+		}), hx(dpk[:])),
+		fmt.Sprintf("dl.open %s %s", edit(func(b []byte) { b[len(b)-1] = 76 })+hx(dmsg2), hx(dpk[:])),
+		fmt.Sprintf("dl.open %s %s", edit(func(b []byte) { b[32], b[33], b[34] = 0, 0, b[34]&0xf0 })+hx(dmsg2), hx(dpk[:])),
+	}
+	// a second XMSS key (other height, other hash function): genuine, wrong-message and cut-short signatures
+	x2 := newKey(g.bytes(48), 6, 0)
+	x2pk := x2.GetPK()
+	x2.SetIndex(37)
+	sig2, _ := x2.Sign(dmsg)
+	lines = append(lines,
+		fmt.Sprintf("x.verify 16 %s %s %s", hx(dmsg), hx(sig2), hx(x2pk[:])),
+		fmt.Sprintf("x.verify 16 %s %s %s", hx(dmsg2), hx(sig2), hx(x2pk[:])),
+		fmt.Sprintf("x.verify 16 %s %s %s", hx(dmsg), hx(sig2[:len(sig2)-32]), hx(x2pk[:])),
+		fmt.Sprintf("x.verify 16 %s %s %s", hx(dmsg), hx(sig2), hx(xpk[:])),
+		fmt.Sprintf("a.xmss %s", hx(x2pk[:])))
+	lines = append(lines, goodV, goodO)
+	lines = append(lines, badV...)
 	// shared Dilithium key: created once, then signed with from every goroutine
 	shared := newState()
 	execOp(shared, "dl.new s "+dseed)
@@ -253,6 +308,21 @@ func genC15(g *gen) {
 				got := execOp(hst, l)
 				g.check(got == want[l], "history-free", "a fresh XMSS key behaves differently after other calls: "+trunc(l, 60), append(append([]string{}, perturb...), priv(id)...)...)
 			}
+		}
+	}
+	// a genuine signature right after each early rejection (and after two of them)
+	g.note("verification after a rejected signature")
+	for _, b := range badV {
+		for _, good := range []string{goodV, goodO} {
+			execOp(hst, b)
+			got := execOp(hst, good)
+			g.check(got == want[good], "history-free", "a genuine Dilithium signature is judged differently right after a rejected one: "+trunc(b, 40), b, good)
+			execOp(hst, b)
+			execOp(hst, b)
+			got = execOp(hst, good)
+			g.check(got == want[good], "history-free", "a genuine Dilithium signature is judged differently after two rejected ones: "+trunc(b, 40), b, b, good)
+			gotb := execOp(hst, b)
+			g.check(gotb == want[b], "history-free", "a rejected Dilithium signature is judged differently after a genuine one: "+trunc(b, 40), good, b)
 		}
 	}
 	// history across processes: a fresh process that makes unusual (but accepted) calls FIRST must then give the
